@@ -409,7 +409,8 @@ def make_Triangle(obj, **kwargs) -> Union[Dict[str, Any], List[Dict[str, Any]]]:
             else obj.magnetization
         )
         if np.all(np.cross(magnetization, vec) == 0):
-            epsilon = 1e-3 * vec
+            # offset of 1e-3 facet sizes (vec has the dimension of an area)
+            epsilon = 1e-3 * vec / np.sqrt(np.linalg.norm(vec))
             vert = np.concatenate([vert - epsilon, vert + epsilon])
             side_faces = [
                 [0, 1, 3],
